@@ -5,6 +5,9 @@ BASE = json.load(open('/root/.vp/BASELINE.json'))['cmd']
 ALL = ["C%02d" % i for i in range(1, 21)]
 # id -> (engine, technique, level text, level note, design ref)
 CHECKS = {
+ "C06": ("wire_rt", "bounded-exhaustive enumeration of Repr values (cross products of boundary alphabets) and of single-byte mutants: emit/parse round trip, buffer-independence of emit",
+         "For 26 wire representation types (Ethernet, ARP, IPv4, IPv6 + extension headers/options, ICMPv4/6, NDISC + options, MLD, IGMP, UDP, TCP + options, DHCPv4, DNS, 802.15.4, 6LoWPAN IPHC/NHC/frag) every value of the per-field boundary cross product (quick 28k values; thorough 4.9M incl. the full TCP product, all 65536 UDP checksums, all 8192 IPHC base headers) is emitted into exact-length buffers pre-filled with 0x00/0xFF/0xA5 (no panic, identical bytes) and parsed back (equal value); every single-byte mutant of a representative subset that still parses must re-emit and re-parse to itself.",
+         "Trusted: generators encode the statement's proviso (only values the protocol permits); equality is the derived PartialEq of the Repr types; DNS has no parse (round trip via accessors).", "2/C06"),
  "C04": ("tcp1", "explicit-state BFS with visited set: one real socket vs an adversarial but consistent peer, reference model of in-window offsets",
          "A real interface + socket is driven to ESTABLISHED (as server and as client); from every reached state every segment with sequence number around the last ACK / around the highest advertised right edge, every small length and the window-filling lengths, FIN exactly at the end of the peer's stream, application reads of 1/2/all bytes and timer ticks are applied (depth <=6 quick, <=9 thorough; receive buffers 2,3,4,8,64 and 70000 with window scaling; peer ISNs 0, 2^31-3, 2^32-3). After each step: delivered bytes equal the peer's stream and never exceed the contiguous prefix of bytes that were sent inside the advertised window; every ACK number emitted is covered by that prefix (+1 only for an eligible FIN); Finished only after all bytes.",
          "Trusted: independent segment builder/parser, reference model; safety only (acceptance of in-window data not demanded); eligibility judged against the highest right edge ever advertised (lenient).", "2/C04"),
